@@ -177,6 +177,11 @@ jpeg_mem_dest_tj(j_compress_ptr cinfo, unsigned char **outbuffer,
   dest->pub.term_destination = term_mem_destination;
   if (dest->buffer == *outbuffer && *outbuffer != NULL && alloc)
     reused = TRUE;
+  /* A buffer that was allocated for a previous image now belongs to the
+   * caller unless the caller passes that same buffer back to us.
+   */
+  if (dest->newbuffer != *outbuffer)
+    dest->newbuffer = NULL;
   dest->outbuffer = outbuffer;
   dest->outsize = outsize;
   dest->alloc = alloc;
